@@ -189,3 +189,13 @@ Proof.
   - repeat constructor; cbn; intuition discriminate.
   - repeat constructor; cbn; try lia; intuition discriminate.
 Qed.
+
+(* ---- the step itself, for the GENERAL merge (extension round 7): merging an empty, non-deleting mapping (whatever other marks it carries -
+   priority, !new / !notnew, safety, metadata) into ANY mapping (any tags anywhere below) always succeeds and leaves the plain content
+   unchanged - the class restrictions above are only needed to speak about what happens to the marks. ---- *)
+From AY Require Proofs.Frame.
+Theorem C15_empty_mapping_neutral_general : forall als fuel p fs xs chs fo xo,
+  delete (Comp CDict fo xo []) = false ->
+  exists r w, on_merge als (S fuel) p (Comp CDict fs xs chs) (Comp CDict fo xo []) = Ok (r, w) /\ erase r = erase (Comp CDict fs xs chs).
+Proof. exact Frame.empty_mapping_neutral. Qed.
+Print Assumptions C15_empty_mapping_neutral_general.
